@@ -524,4 +524,142 @@ theorem walkIter_imp_runStack : ∀ (k : Nat) (st : List WalkFrame) (s : Store) 
             rw [bind_assoc']
             exact hpush b' s R h hR
 
+/-! ### the recursive walk is computed by the stack loop (given enough iterations) -/
+
+/-- the stack loop started on the frame of `x` computes `w x`, in `c` iterations -/
+def PushSim (w : Nat → Store → M Store) : Prop :=
+  ∀ (x : Nat) (s : Store), w x s ≠ .error .fuel → ∃ c, ∀ (m : Nat) (below : List WalkFrame),
+    (walkFrame x s >>= fun fr => walkIter (c + m) (fr :: below) s) = w x s >>= walkIter m below
+
+theorem frame_sim {w : Nat → Store → M Store} (hw : PushSim w) (fr : WalkFrame) :
+    ∀ (n pos : Nat) (s : Store), (actsOf fr).length - pos = n →
+      runActs w fr.root ((actsOf fr).drop pos) s ≠ .error .fuel →
+      ∃ c, ∀ (m : Nat) (rest : List WalkFrame),
+        walkIter (c + m) ({ fr with pos := pos } :: rest) s =
+          runActs w fr.root ((actsOf fr).drop pos) s >>= walkIter m rest := by
+  intro n
+  induction n with
+  | zero =>
+    intro pos s hn _
+    refine ⟨1, fun m rest => ?_⟩
+    have hnone : (actsOf fr)[pos]? = none := List.getElem?_eq_none (by omega)
+    rw [show 1 + m = m + 1 by omega, walkIter_succ, frameStep_acts]
+    simp only [actsOf_pos]
+    rw [show (actsOf { fr with pos := pos }) = actsOf fr from rfl, hnone,
+      List.drop_eq_nil_of_le (by omega)]
+    rfl
+  | succ n ih =>
+    intro pos s hn hR
+    have hlt : pos < (actsOf fr).length := by omega
+    obtain ⟨a, ha⟩ : ∃ a, (actsOf fr)[pos]? = some a := ⟨_, List.getElem?_eq_getElem hlt⟩
+    rw [drop_of_getElem? ha] at hR ⊢
+    have hstep : ∀ (k : Nat) (rest : List WalkFrame),
+        walkIter (k + 1) ({ fr with pos := pos } :: rest) s =
+          (match some a with
+            | none => pure (.pop, s)
+            | some (.rem p q) => removeStep p q s
+            | some (.go a b) => if a ≠ fr.root then throw .panic else pure (.next (some b), s)) >>= fun r =>
+          match r.1 with
+          | .pop => walkIter k rest r.2
+          | .next none => walkIter k ({ fr with pos := pos + 1 } :: rest) r.2
+          | .next (some x) => walkFrame x r.2 >>= fun f =>
+              walkIter k (f :: { fr with pos := pos + 1 } :: rest) r.2 := by
+      intro k rest
+      rw [walkIter_succ, frameStep_acts, show (actsOf { fr with pos := pos }) = actsOf fr from rfl]
+      simp only
+      rw [ha]
+    -- continuing with the frame at pos + 1 from a store s1
+    have hcont : ∀ s1, runActs w fr.root ((actsOf fr).drop (pos + 1)) s1 ≠ .error .fuel →
+        ∃ c, ∀ (m : Nat) (rest : List WalkFrame),
+          walkIter (c + m) ({ fr with pos := pos + 1 } :: rest) s1 =
+            runActs w fr.root ((actsOf fr).drop (pos + 1)) s1 >>= walkIter m rest :=
+      fun s1 h => ih (pos + 1) s1 (by omega) h
+    -- a requested walk from x in the store s1, then the rest of the frame
+    have hwalk : ∀ (x : Nat) (s1 : Store),
+        (w x s1 >>= runActs w fr.root ((actsOf fr).drop (pos + 1))) ≠ .error .fuel →
+        ∃ c, ∀ (m : Nat) (rest : List WalkFrame),
+          (walkFrame x s1 >>= fun f => walkIter (c + m) (f :: { fr with pos := pos + 1 } :: rest) s1) =
+            (w x s1 >>= runActs w fr.root ((actsOf fr).drop (pos + 1))) >>= walkIter m rest := by
+      intro x s1 hne
+      cases hW : w x s1 with
+      | error e =>
+        have hWne : w x s1 ≠ .error .fuel := by
+          intro hc; rw [hc] at hne; exact hne rfl
+        obtain ⟨c2, h2⟩ := hw x s1 hWne
+        refine ⟨c2, fun m rest => ?_⟩
+        rw [h2 m _, hW]; rfl
+      | ok s2 =>
+        have hWne : w x s1 ≠ .error .fuel := by rw [hW]; intro hc; cases hc
+        obtain ⟨c2, h2⟩ := hw x s1 hWne
+        rw [hW] at hne
+        obtain ⟨c1, h1⟩ := hcont s2 hne
+        refine ⟨c2 + c1, fun m rest => ?_⟩
+        rw [show c2 + c1 + m = c2 + (c1 + m) by omega, h2 (c1 + m) _, hW]
+        simp only [ok_bind]
+        exact h1 m rest
+    cases a with
+    | rem p q =>
+      simp only [runActs, walkStep_eq_remove, bind_assoc'] at hR ⊢
+      cases hrs : removeStep p q s with
+      | error e =>
+        refine ⟨1, fun m rest => ?_⟩
+        rw [show 1 + m = m + 1 by omega, hstep]
+        simp only [hrs]; rfl
+      | ok res =>
+        rw [hrs] at hR
+        simp only [ok_bind] at hR
+        have hnp := removeStep_not_pop hrs
+        obtain ⟨r, s1⟩ := res
+        cases r with
+        | pop => exact absurd rfl hnp
+        | next nx =>
+          cases nx with
+          | none =>
+            simp only [afterRemove, pure_bind'] at hR
+            obtain ⟨c1, h1⟩ := hcont s1 hR
+            refine ⟨c1 + 1, fun m rest => ?_⟩
+            rw [show c1 + 1 + m = (c1 + m) + 1 by omega, hstep]
+            simp only [hrs, ok_bind, afterRemove, pure_bind']
+            exact h1 m rest
+          | some x =>
+            simp only [afterRemove] at hR
+            obtain ⟨c, hc⟩ := hwalk x s1 hR
+            refine ⟨c + 1, fun m rest => ?_⟩
+            rw [show c + 1 + m = (c + m) + 1 by omega, hstep]
+            simp only [hrs, ok_bind, afterRemove]
+            rw [hc m rest, bind_assoc']
+    | go a' b' =>
+      simp only [runActs] at hR ⊢
+      by_cases hne : a' ≠ fr.root
+      · refine ⟨1, fun m rest => ?_⟩
+        rw [show 1 + m = m + 1 by omega, hstep]
+        simp only [if_pos hne]; rfl
+      · rw [if_neg hne] at hR ⊢
+        obtain ⟨c, hc⟩ := hwalk b' s hR
+        refine ⟨c + 1, fun m rest => ?_⟩
+        rw [show c + 1 + m = (c + m) + 1 by omega, hstep]
+        simp only [if_neg hne, pure_bind']
+        rw [hc m rest, bind_assoc']
+
+theorem pushSim_walkDoubles : ∀ (f : Nat), PushSim (walkDoubles f) := by
+  intro f
+  induction f with
+  | zero => intro x s h; simp only [walkDoubles] at h; exact absurd rfl h
+  | succ f ih =>
+    intro x s hne
+    rw [walkDoubles_acts] at hne ⊢
+    rw [walkFrame_eq]
+    by_cases hc : x + 1 ≥ W32
+    · rw [if_pos hc]
+      exact ⟨0, fun m below => by rw [if_pos hc]; rfl⟩
+    · rw [if_neg hc] at hne ⊢
+      have hdrop : (actsOf (frame0 x s)).drop 0 = actsOf (frame0 x s) := List.drop_zero
+      obtain ⟨c, h⟩ := frame_sim ih (frame0 x s) _ 0 s rfl (by rw [hdrop]; exact hne)
+      refine ⟨c, fun m below => ?_⟩
+      rw [if_neg hc]
+      simp only [pure_bind']
+      have := h m below
+      rw [hdrop] at this
+      exact this
+
 end Ymq.Relations
